@@ -11,7 +11,7 @@ PYTHONPATH=$W timeout 900 /venv/bin/python -W ignore $DEMO > /tmp/confirm_${ID}_
 git apply $SD/patch.diff || { echo "PATCH DOES NOT APPLY"; exit 2; }
 PYTHONPATH=$W timeout 900 /venv/bin/python -W ignore $DEMO > /tmp/confirm_${ID}_patched.log 2>&1; echo "demo on patched tree: exit $?"
 if [ "${SKIP_TESTS:-0}" != "1" ]; then
-  PYTHONPATH=$W timeout 3000 /venv/bin/python -m pytest -q -p no:cacheprovider -n 6 --timeout=900 --junitxml=/tmp/confirm_$ID.xml tests > /tmp/confirm_${ID}_tests.log 2>&1
+  PYTHONPATH=$W timeout 3000 /venv/bin/python -m pytest -q -p no:cacheprovider -n ${NPROC:-6} --timeout=900 --junitxml=/tmp/confirm_$ID.xml tests > /tmp/confirm_${ID}_tests.log 2>&1
   tail -1 /tmp/confirm_${ID}_tests.log
   python3 /verif/tools/baseline_compare.py /tmp/confirm_$ID.xml 2>/dev/null | head -5
 fi
